@@ -217,7 +217,7 @@ theorem get_idempotent (c : Cfg) (s : State) (m k now m' now' : Nat) (id : Int)
         simp only [hk] at h
         unfold createMapping at h
         cases hf : lookupFlood s.flood m with
-        | some f => simp only [hf] at h; dsimp only at h; split at h <;> simp [insertMapping] at h
+        | some f => simp only [hf] at h; split at h <;> simp [insertMapping] at h
         | none => simp [hf, insertMapping] at h
   · rw [h1]
     rcases h with h | h
@@ -291,5 +291,216 @@ theorem ids_never_reused (c : Cfg) (s : State) (hi : MInv s) (p : Int × Nat) (h
   rcases getOrCreate_maps c (run c s ops) m k now with ⟨_, _, h3⟩ | ⟨_, _, _, h4⟩
   · exact absurd h (h3 id)
   · rw [h4] at h; injection h with h; subst h; push_cast; omega
+
+
+/-! ### C19.4  flood limits
+
+  FULL STATEMENT (kept for reference): for every history `ops`, every metric `m` and every window of the history that lies after
+  the global budget was exhausted and contains no reset of `m`:
+      #(mappings created for m in the window) ≤ free_m(at window start, maxBudget if m has no row) + bonus · (elapsed steps),
+  and every request of `m` for an unmapped key made when `attempt` is negative answers flood-limit and changes nothing.
+
+  Proved below: (1) the arithmetic of calcBudget as a token bucket (`attempt_*`), (2) the bound for EVERY sequence of attempts
+  against one flood row, with the elapsed steps as the code measures them (`flood_bound_partial`), (3) the one-step tie between
+  the bucket and the full model: in limited mode get-or-create of an unmapped key is exactly one bucket attempt on the metric's
+  row (`create_limited`, `create_first`, `beyond_budget_is_flood_error`), (4) nothing but reset and the metric's own creations
+  writes a flood row of the metric is NOT proved in Lean (frame lemmas over the full op list are missing); the composition of
+  (2) and (3) along a full history is covered by the correspondence and by the token-bucket oracle of the harness only.
+  Under a non-decreasing clock the measured steps of successive creations telescope to at most the real number of elapsed
+  steps (`lastTimeUpdate` is always a rounded time except right after ResetFlood, see the note in checks/C19.py). -/
+
+/-- calcBudget for one creation (expense 1) as a function of the measured number of elapsed steps -/
+def attempt (c : Cfg) (free : Int) (el : Nat) : Int :=
+  if overMax free c.maxBudget then free - 1
+  else if c.maxBudget ≤ free - 1 + (el : Int) * c.bonus then c.maxBudget - 1 else free - 1 + (el : Int) * c.bonus
+
+theorem calcBudget_eq_attempt (c : Cfg) (free : Int) (last now : Nat) :
+    calcBudget free 1 last now c.maxBudget c.bonus c.step = attempt c free (subU32 now last / c.step) := by
+  unfold calcBudget attempt; rfl
+
+/-- one creation costs one unit; the refill is at most bonus per measured step -/
+theorem attempt_le (c : Cfg) (hb : 0 ≤ c.bonus) (free : Int) (el : Nat) :
+    attempt c free el ≤ free - 1 + (el : Int) * c.bonus := by
+  unfold attempt overMax
+  have h0 : 0 ≤ (el : Int) * c.bonus := Int.mul_nonneg (Int.natCast_nonneg el) hb
+  split
+  · omega
+  · split <;> omega
+
+/-- the refill never lifts the budget above maxBudget − 1 (a budget above maxBudget, set by ResetFlood, only shrinks) -/
+theorem attempt_cap (c : Cfg) (free : Int) (el : Nat) :
+    (free ≤ c.maxBudget → attempt c free el ≤ c.maxBudget - 1) ∧ (c.maxBudget < free → attempt c free el = free - 1) := by
+  unfold attempt overMax
+  constructor
+  · intro h
+    have : ¬ (decide (c.maxBudget < free) = true) := by simpa using Int.not_lt.mpr h
+    simp only [this]
+    split <;> omega
+  · intro h
+    have : decide (c.maxBudget < free) = true := by simpa using h
+    simp only [this, if_true]
+
+/-- a sequence of creation attempts against one flood row: `el` is the number of elapsed steps the code measures at that
+    attempt; a refused attempt (flood-limit error) leaves the row untouched. Returns (#created, final budget, Σ steps of the
+    successful attempts). -/
+def bucketRun (c : Cfg) : Int → List Nat → Nat × Int × Nat
+  | free, [] => (0, free, 0)
+  | free, el :: els =>
+    if attempt c free el < 0 then bucketRun c free els
+    else ((bucketRun c (attempt c free el) els).1 + 1, (bucketRun c (attempt c free el) els).2.1,
+          (bucketRun c (attempt c free el) els).2.2 + el)
+
+theorem bucket_potential (c : Cfg) (hb : 0 ≤ c.bonus) : ∀ (els : List Nat) (free : Int),
+    ((bucketRun c free els).1 : Int) + (bucketRun c free els).2.1 ≤ free + ((bucketRun c free els).2.2 : Int) * c.bonus ∧
+    (0 < (bucketRun c free els).1 → 0 ≤ (bucketRun c free els).2.1) := by
+  intro els
+  induction els with
+  | nil => intro free; simp [bucketRun]
+  | cons el els ih =>
+    intro free
+    simp only [bucketRun]
+    by_cases h : attempt c free el < 0
+    · simp only [h, if_true]; exact ih free
+    · simp only [h, if_false]
+      obtain ⟨h1, h2⟩ := ih (attempt c free el)
+      have h3 := attempt_le c hb free el
+      constructor
+      · push_cast
+        have : ((bucketRun c (attempt c free el) els).2.2 + el : Int) * c.bonus
+            = ((bucketRun c (attempt c free el) els).2.2 : Int) * c.bonus + (el : Int) * c.bonus := by
+          rw [Int.add_mul]
+        rw [this]; omega
+      · intro _
+        by_cases hz : 0 < (bucketRun c (attempt c free el) els).1
+        · exact h2 hz
+        · have hz' : (bucketRun c (attempt c free el) els).1 = 0 := by omega
+          -- no further creation: the budget is the one left by this attempt, which was not negative
+          have : ∀ (els : List Nat) (f : Int), (bucketRun c f els).1 = 0 → (bucketRun c f els).2.1 = f := by
+            intro els
+            induction els with
+            | nil => intro f _; rfl
+            | cons e es ih2 =>
+              intro f hf
+              simp only [bucketRun] at hf ⊢
+              by_cases h' : attempt c f e < 0
+              · simp only [h', if_true] at hf ⊢; exact ih2 f hf
+              · simp only [h', if_false] at hf; omega
+          rw [this els _ hz']; omega
+
+/-- PARTIAL (see the full statement above): for every sequence of attempts against one flood row,
+    #created ≤ remaining budget at the start + bonus · (steps the code measured at the successful attempts);
+    the remaining budget of a row written by the system is at most max(maxBudget, reset value) (`attempt_cap`, `resetAfter_le`). -/
+theorem flood_bound_partial (c : Cfg) (hb : 0 ≤ c.bonus) (free : Int) (hf : 0 ≤ free) (els : List Nat) :
+    ((bucketRun c free els).1 : Int) ≤ free + ((bucketRun c free els).2.2 : Int) * c.bonus := by
+  obtain ⟨h1, h2⟩ := bucket_potential c hb els free
+  by_cases hz : 0 < (bucketRun c free els).1
+  · have := h2 hz; omega
+  · have : (bucketRun c free els).1 = 0 := by omega
+    have h0 : 0 ≤ ((bucketRun c free els).2.2 : Int) * c.bonus := Int.mul_nonneg (Int.natCast_nonneg _) hb
+    rw [this]; push_cast; omega
+
+theorem resetAfter_le (c : Cfg) (limit : Int) : resetAfter c limit ≤ max c.maxBudget maxResetLimit := by
+  unfold resetAfter maxResetLimit
+  split
+  · exact Int.le_max_left _ _
+  · split
+    · exact Int.le_max_right _ _
+    · rename_i h1 h2
+      have : limit ≤ 10000 := by simpa [maxResetLimit] using Int.not_lt.mp h2
+      exact Int.le_trans this (Int.le_max_right _ _)
+
+/-- limited mode: the global budget no longer exempts creations from the per-metric limit -/
+def Limited (c : Cfg) (s : State) : Prop := skipFlood c s = false
+
+/-- the one-step tie: in limited mode, get-or-create of an unmapped key for a metric that has a flood row IS one bucket
+    attempt on that row, with the elapsed steps measured by unsigned 32-bit subtraction of the rounded times -/
+theorem create_limited (c : Cfg) (s : State) (m k now : Nat) (f : Flood) (hl : Limited c s)
+    (hk : lookupKey s.maps k = none) (hf : lookupFlood s.flood m = some f) :
+    let el := subU32 (roundTime now c.step) (u32 f.last) / c.step
+    (attempt c f.free el < 0 → getOrCreate c s m k now = (s, .flood)) ∧
+    (¬ attempt c f.free el < 0 →
+      (getOrCreate c s m k now).2 = .created ((s.mapSeq + 1 : Nat) : Int) ∧
+      lookupFlood (getOrCreate c s m k now).1.flood m
+        = some { metric := m, last := roundTime now c.step, free := attempt c f.free el }) := by
+  intro el
+  have hb : budgetFor c s f (roundTime now c.step) = attempt c f.free el := by
+    unfold budgetFor
+    unfold Limited at hl
+    simp only [hl]
+    exact calcBudget_eq_attempt c f.free (u32 f.last) (roundTime now c.step)
+  have hhit : floodHit c s f (roundTime now c.step) = decide (attempt c f.free el < 0) := by
+    unfold floodHit
+    unfold Limited at hl
+    simp [hl, hb]
+  constructor
+  · intro hneg
+    unfold getOrCreate createMapping
+    simp [hk, hf, hhit, hneg]
+  · intro hpos
+    unfold getOrCreate createMapping
+    simp only [hk, hf, hhit, hpos, decide_false]
+    simp [insertMapping, setFlood, lookupFlood, hb]
+
+/-- "requests beyond that fail with a flood-limit error" — and change nothing -/
+theorem beyond_budget_is_flood_error (c : Cfg) (s : State) (m k now : Nat) (f : Flood) (hl : Limited c s)
+    (hk : lookupKey s.maps k = none) (hf : lookupFlood s.flood m = some f)
+    (hneg : attempt c f.free (subU32 (roundTime now c.step) (u32 f.last) / c.step) < 0) :
+    getOrCreate c s m k now = (s, .flood) :=
+  (create_limited c s m k now f hl hk hf).1 hneg
+
+/-- a metric without a flood row starts with the maximum budget: the creation succeeds and leaves maxBudget − 1 -/
+theorem create_first (c : Cfg) (s : State) (m k now : Nat) (hk : lookupKey s.maps k = none)
+    (hf : lookupFlood s.flood m = none) :
+    (getOrCreate c s m k now).2 = .created ((s.mapSeq + 1 : Nat) : Int) ∧
+    lookupFlood (getOrCreate c s m k now).1.flood m
+      = some { metric := m, last := roundTime now c.step, free := c.maxBudget - 1 } := by
+  unfold getOrCreate createMapping
+  simp only [hk, hf]
+  simp [insertMapping, setFlood, lookupFlood]
+
+/-- reset-flood sets exactly the requested budget (capped at 10000), or removes the row so that the metric starts again
+    from maxBudget -/
+theorem reset_sets_budget (c : Cfg) (s : State) (m : Nat) (limit : Int) (now : Nat) :
+    (limit ≤ 0 → lookupFlood (resetFlood c s m limit now).1.flood m = none) ∧
+    (0 < limit → lookupFlood (resetFlood c s m limit now).1.flood m
+        = some { metric := m, last := now, free := resetAfter c limit }) := by
+  constructor
+  · intro h
+    unfold resetFlood
+    simp only [h, if_true]
+    unfold lookupFlood
+    rw [List.find?_eq_none]
+    intro x hx
+    simp only [List.mem_filter] at hx
+    simpa using hx.2
+  · intro h
+    have : ¬ limit ≤ 0 := by omega
+    unfold resetFlood
+    simp only [this, if_false]
+    simp [setFlood, lookupFlood]
+
+/-! ### non-vacuity and the observed quirks -/
+
+def c3 : Cfg := { maxBudget := 3, step := 60, bonus := 1, globalBudget := 0 }
+def gcs (reqs : List (Nat × Nat)) : List Op := reqs.map (fun r => Op.getOrCreate 1 r.1 r.2)
+
+-- budget 3, no time passes: three creations, then flood-limit; one step later one more creation
+example : ((gcs [(1, 600), (2, 600), (3, 600)]).foldl (step c3) State.empty).maps.map (·.1) = [3, 2, 1] := by decide
+example : (getOrCreate c3 (run c3 State.empty (gcs [(1, 600), (2, 600), (3, 600)])) 1 4 600).2 = .flood := by decide
+example : (getOrCreate c3 (run c3 State.empty (gcs [(1, 600), (2, 600), (3, 600)])) 1 4 660).2 = .created 4 := by decide
+example : (getOrCreate c3 (run c3 State.empty (gcs [(1, 600), (2, 600), (3, 600)])) 1 2 9999).2 = .got 2 := by decide
+example : bucketRun c3 2 [0, 0, 0, 0, 1, 0] = (3, 0, 1) := by decide
+-- a deleted id is not handed out again
+example : (getOrCreate c3 (run c3 State.empty (gcs [(1, 600), (2, 600)] ++ [.delete [2]])) 1 9 600).2 = .created 3 := by decide
+-- put displaces both the pair using the key and the pair using the id
+example : (run c3 State.empty (gcs [(1, 600), (2, 600)] ++ [.put [(1, 2)]])).maps = [(2, 1)] := by decide
+
+/-- Observation 1 (reported): ResetFlood stores the UNROUNDED time. A reset to 1 at t = 630 followed by a creation at t = 640
+    (same 60 s step) measures 2^32 − 30 elapsed seconds by unsigned wrap, so the budget is refilled to maxBudget − 1 = 2
+    instead of going from 1 to 0. -/
+example : (run c3 State.empty (gcs [(1, 600)] ++ [.reset 1 1 630, .getOrCreate 1 2 640])).flood
+    = [{ metric := 1, last := 600, free := 2 }] := by decide
+/-- Observation 2 (reported): the same wrap refills the budget when the clock moves backwards by one step -/
+example : (getOrCreate c3 (run c3 State.empty (gcs [(1, 600), (2, 600), (3, 600)])) 1 4 540).2 = .created 4 := by decide
 
 end SH.C19
